@@ -6,6 +6,8 @@
 //
 // lines (keys/values/triggers hex, "-" = empty, "e" = the empty trigger name; see lean/Cppcms/C10/Driver.lean):
 //   cfg <srvlimit,..> <l1,..>      (l1: n = no L1, else the L1's limit)
+//   reset                          same cluster, every server cache and every L1 cleared directly (generation
+//                                  counters keep running); saves the connections of a fresh cluster
 //   fetch <c> <now> <key> <0|1> | store <c> <now> <key> <val> <trigs> <deadline> | rise <c> <t> | clear <c>
 //   remove <c> <key> | stats <c>
 //        answer: <result> | <keys> <trigs> of every server (asked directly, not over tcp) | same for every L1
@@ -53,7 +55,14 @@ static int listen_any(int &port)
 	int s=socket(AF_INET,SOCK_STREAM,0);
 	sockaddr_in a; memset(&a,0,sizeof a);
 	a.sin_family=AF_INET; a.sin_addr.s_addr=htonl(INADDR_LOOPBACK); a.sin_port=0;
-	if(s<0 || bind(s,(sockaddr*)&a,sizeof a)<0 || listen(s,16)<0) { perror("listen_any"); exit(3); }
+	for(int attempt=0;;attempt++) {
+		// ephemeral ports can run out for a while (TIME_WAIT of earlier histories, other engineers' tests): wait, do not fail
+		if(s>=0 && bind(s,(sockaddr*)&a,sizeof a)==0 && listen(s,16)==0) break;
+		if(attempt>240) { perror("listen_any"); exit(3); }
+		if(s>=0) close(s);
+		usleep(500000);
+		s=socket(AF_INET,SOCK_STREAM,0);
+	}
 	socklen_t l=sizeof a; getsockname(s,(sockaddr*)&a,&l);
 	port=ntohs(a.sin_port);
 	return s;
@@ -176,6 +185,12 @@ static std::string do_cfg(std::string const &sl,std::string const &ll)
 		client_node c;
 		if(b[i]!="n") c.l1=thread_cache_factory(strtoul(b[i].c_str(),0,10));
 		c.c=tcp_cache_factory(ips,ports,c.l1);
+		// connect now (stats talks to every server) and wait out a temporary shortage of ephemeral ports, so that
+		// no operation of the history can fail with "connect: Cannot assign requested address"
+		for(int attempt=0;;attempt++) {
+			try { unsigned k,t; c.c->stats(k,t); break; }
+			catch(std::exception const &e) { if(attempt>240) throw; usleep(500000); }
+		}
 		clients.push_back(c);
 	}
 	return "ok"+tail();
@@ -333,6 +348,11 @@ static std::string run(std::vector<std::string> const &w)
 {
 	if(w.empty()) return "bad-op";
 	if(w[0]=="cfg" && w.size()==3) return do_cfg(w[1],w[2]);
+	if(w[0]=="reset" && w.size()==1) {
+		for(size_t i=0;i<servers.size();i++) servers[i]->cache->clear();
+		for(size_t i=0;i<clients.size();i++) if(clients[i].l1) clients[i].l1->clear();
+		return "ok"+tail();
+	}
 	if(w[0]=="layout" && w.size()==1) return do_layout();
 	if(w[0]=="hash" && w.size()==3) { std::string k; if(!vh::unhex(w[2],k)) return "bad-op"; return do_hash(atoi(w[1].c_str()),k); }
 	if(w[0]=="cw") return do_cw(w);
